@@ -41,7 +41,7 @@ package keeper
 //@     (0 <= k && k < len(minters) ==> currentMinter == minters[k] && (k == 0 ? previousMinter == nil : previousMinter == minters[k - 1]))
 //@   ensures state.SequenceId < minters[0].SequenceId ==> currentMinter == nil && previousMinter == nil
 //@   ensures state.SequenceId >= minters[0].SequenceId + len(minters) ==> currentMinter == nil && previousMinter == minters[len(minters) - 1]
-//@   prop C02
+//@   prop C02 C10
 //@ loop getCurrentAndPreviousMinter#1
 //@   invariant 0 <= \i && \i <= len(minters)
 //@   invariant let k = state.SequenceId - minters[0].SequenceId in
@@ -56,7 +56,7 @@ package keeper
 //@   ensures err == nil ==> (forall d: str :: {$supply[d]} $supply[d] == old($supply[d]) + newCoins[d])
 //@   ensures err == nil ==> (forall d: str :: {$bal[modaddr("cfeminter")][d]} $bal[modaddr("cfeminter")][d] == old($bal[modaddr("cfeminter")][d]) + newCoins[d])
 //@   ensures forall a: str :: {$bal[a]} a != modaddr("cfeminter") ==> $bal[a] == old($bal[a])
-//@   prop C01
+//@   prop C01 C10
 //@ func (k Keeper) SendMintedCoins(ctx, fees) (err)
 //@   requires modaddr(k.collectorName) != modaddr("cfeminter")
 //@   modifies $bal
@@ -65,7 +65,7 @@ package keeper
 //@   ensures err == nil ==>
 //@     (forall d: str :: {$bal[modaddr(k.collectorName)][d]} $bal[modaddr(k.collectorName)][d] == old($bal[modaddr(k.collectorName)][d]) + fees[d])
 //@   ensures forall a: str :: {$bal[a]} a != modaddr("cfeminter") && a != modaddr(k.collectorName) ==> $bal[a] == old($bal[a])
-//@   prop C01
+//@   prop C01 C10
 //@
 //@ // ---- the emission step ----
 //@ pred validMinters(ms, start) = sortedMinters(ms)
@@ -127,7 +127,7 @@ package keeper
 //@       && $histMinted[st0.SequenceId] == truncInt(x) && $histRemTo[st0.SequenceId] == x - truncInt(x) * P
 //@       && carryIn(st0.SequenceId + 1) == x - truncInt(x) * P
 //@       && res >= truncInt(x) - st0.AmountMinted
-//@   prop C02 C01
+//@   prop C02 C01 C10
 //@
 //@ // invariant of the stored minter state between blocks (what Mint needs on entry and re-establishes)
 //@ pred Jstore(p, st) = !st.AmountMinted.IsNil() && st.AmountMinted >= 0 && !st.RemainderFromPreviousMinter.IsNil()
@@ -160,7 +160,7 @@ package keeper
 //@       && truncInt(x) >= st0.AmountMinted && (m.EndTime == nil || $blockTime < *m.EndTime) ==>
 //@       $minterState.SequenceId == st0.SequenceId && $minterState.AmountMinted == truncInt(x)
 //@       && $minterState.RemainderToMint == x - truncInt(x) * P && res == truncInt(x) - st0.AmountMinted
-//@   prop C02 C01
+//@   prop C02 C01 C10
 //@
 //@ // ---- inflation (C19) ----
 //@ func (k Keeper) GetCurrentInflation(ctx) (res, err)
@@ -169,14 +169,14 @@ package keeper
 //@   ensures !hasMinter($minterParams, $minterState.SequenceId) ==> err != nil
 //@   ensures hasMinter($minterParams, $minterState.SequenceId) ==> err == nil && !res.IsNil()
 //@     && res == infl(cur($minterParams, $minterState.SequenceId), startOf($minterParams, $minterState.SequenceId), $blockTime, $supply[$minterParams.MintDenom])
-//@   prop C19
+//@   prop C19 C20
 //@ func (k Keeper) Inflation(goCtx, req) (resp, err)
 //@   requires validMinters($minterParams.Minters, $minterParams.StartTime) && timeOK($blockTime)
 //@   requires !$minterState.AmountMinted.IsNil()
 //@   ensures req != nil && hasMinter($minterParams, $minterState.SequenceId) ==> err == nil && resp != nil && !resp.Inflation.IsNil()
 //@     && resp.Inflation == infl(cur($minterParams, $minterState.SequenceId), startOf($minterParams, $minterState.SequenceId), $blockTime, $supply[$minterParams.MintDenom])
 //@   ensures req == nil || !hasMinter($minterParams, $minterState.SequenceId) ==> err != nil
-//@   prop C19
+//@   prop C19 C20
 //@
 //@ // ---- C13: only governance changes the parameters; what is stored was validated and contains the current period ----
 //@ spec func mpKey() str = global("types.ParamsKey")
@@ -190,14 +190,14 @@ package keeper
 //@   ensures err == nil ==> minterParamsValid(snap(p)) && $kvHas[storeOf(k.storeKey)][mpKey()] && $kvVal[storeOf(k.storeKey)][mpKey()] == enc(p)
 //@   ensures forall id :: {paramsContainSeq(snap(p), id)} paramsContainSeq(snap(p), id) == old(paramsContainSeq(snap(p), id))
 //@   ensures kvOnlyChanged(storeOf(k.storeKey), mpKey())
-//@   prop C13
+//@   prop C13 C20
 //@ func (k Keeper) UpdateParams(ctx, authority, params) (err)
 //@   modifies $kvHas, $kvVal, elems(params.Minters)
 //@   ensures authority != k.authority ==> err != nil
 //@   ensures err != nil ==> kvUnchanged()
 //@   ensures err == nil ==> authority == k.authority && storedMinterParamsOK(k) && $kvVal[storeOf(k.storeKey)][mpKey()] == enc(params)
 //@   ensures kvOnlyChanged(storeOf(k.storeKey), mpKey())
-//@   prop C13
+//@   prop C13 C20
 //@ func (k msgServer) UpdateMintersParams(goCtx, msg) (resp, err)
 //@   requires msg != nil
 //@   modifies $kvHas, $kvVal, elems(msg.Minters)
@@ -205,7 +205,7 @@ package keeper
 //@   ensures err != nil ==> kvUnchanged()
 //@   ensures err == nil ==> msg.Authority == k.authority && storedMinterParamsOK(k.Keeper)
 //@   ensures kvOnlyChanged(storeOf(k.storeKey), mpKey())
-//@   prop C13
+//@   prop C13 C20
 //@ func (k msgServer) UpdateParams(goCtx, msg) (resp, err)
 //@   requires msg != nil
 //@   modifies $kvHas, $kvVal, elems(msg.Minters)
@@ -213,7 +213,13 @@ package keeper
 //@   ensures err != nil ==> kvUnchanged()
 //@   ensures err == nil ==> msg.Authority == k.authority && storedMinterParamsOK(k.Keeper)
 //@   ensures kvOnlyChanged(storeOf(k.storeKey), mpKey())
-//@   prop C13
+//@   prop C13 C20
+
+//@ // ---- C20: entry points under the no-panic sweep (no functional claim here: they must not panic for any field values) ----
+//@ func (k Keeper) Params(c, req) (r0, r1)
+//@   prop C20
+//@ func (k Keeper) State(goCtx, req) (r0, r1)
+//@   prop C20
 
 //@ // ---- declared effects (checked per call instruction by the effect checker; anything not listed is effect-free) ----
 //@ effects Keeper.Mint bank.mint bank.send
